@@ -10,7 +10,7 @@ def generate(rng, tier):
     return ([half_open_burst(rng) for _ in range(1000 * k)] + [multi_phase_burst(rng) for _ in range(500 * k)]
             + [random_concurrent(rng) for _ in range(500 * k)] + [classifier_panic_trials(rng) for _ in range(100 * k)]
             + [half_open_burst(rng, us=True) for _ in range(100 * k)] + [half_open_burst(rng, us=2) for _ in range(80 * k)] +
-            [slow_listener(rng) for _ in range(120 * k)])
+            [slow_listener(rng) for _ in range(120 * k)] + [marathon_phase_wrap()])
 
 
 def monitor(s, t):
@@ -71,3 +71,46 @@ def monitor(s, t):
                 return "%d trial calls reached the inner service in one half-open phase and only %d of them ended without an outcome; permitted %d" % (cur[0], cur[1], perm)
         prev = st
     return None
+
+
+# ---- marathon: 65536 state transitions (the trial-guard phase stamp must not repeat) ---------------------------------
+# The model is cubic in the number of callers and is not run on this script (model_input -> [], compare skipped): it is
+# judged by the monitor alone, like C05's marathon scripts. A trial hung since phase p is dropped in phase p + 65536
+# (wait 0; 32767 fail-and-reopen cycles in between): the drop must not free a slot of the CURRENT phase.
+MARATHON_N = 32767 + 6
+
+
+def marathon_phase_wrap(cycles=32767):
+    s = cfg(0, 1, 100, 1, 1, 1, 0, 50, 1, 2, 0, 2, 0, cycles + 6)
+    s += seq_call(0, 2, 0)                 # one failure: open
+    s += [1, 1, 0]                         # wait 0: half-open, caller 1 is a trial and hangs
+    s += [5, 0, 0]                         # force_open
+    for k in range(2, cycles + 2):
+        s += [1, k, 0, 4, k, 2, 1, k, 0]   # open -> half-open (trial k), trial fails -> open: two transitions
+    a = cycles + 2
+    s += [1, a, 0]                         # half-open again: trial a hangs (1 of 2 slots)
+    s += [2, 1, 0]                         # the trial of 65536 transitions ago is dropped
+    s += [1, a + 1, 0, 1, a + 2, 0]        # second slot, then one too many
+    return s
+
+
+def is_marathon(s):
+    return len(s) > 14 and s[13] >= 30000
+
+
+def model_input(s, impl_trace):
+    return [] if is_marathon(s) else s
+
+
+def compare(s, impl, model):
+    if is_marathon(s):
+        return None
+    return None if impl == model else "traces differ"
+
+
+def shrink(s):
+    """a marathon script is not shrunk (98 000 candidates of 295 000 integers each): it is its own minimal replay"""
+    if is_marathon(s):
+        return iter(())
+    head, body = s[:NCFG], s[NCFG:]
+    return (head + body[:3 * i] + body[3 * i + 3:] for i in range(len(body) // 3))
